@@ -16,6 +16,8 @@ Lemma src_send_first_cases : send_first_cases = (true, true, true).
 Proof. reflexivity. Qed.
 Lemma src_send_second_cases : send_second_cases = (true, true, true, true).
 Proof. reflexivity. Qed.
+Lemma src_reader_retry_stops : reader_retry_stops_when_done = true.
+Proof. reflexivity. Qed.
 Lemma src_chan_caps : response_chan_cap = 1 /\ err_chan_cap = 1.
 Proof. split; reflexivity. Qed.
 Lemma src_reply_types :
@@ -81,7 +83,7 @@ Inductive step_shape (st : hstate) : hevent -> hstate -> list hout -> Prop :=
 
 Lemma hstep_shape : forall st e, step_shape st e (fst (hstep st e)) (snd (hstep st e)).
 Proof.
-  intros st e. destruct e as [c mt wok|t r| | | |c]; cbn [hstep].
+  intros st e. destruct e as [c mt wok|t r| | | | |c]; cbn [hstep].
   - destruct (h_running st) eqn:Hr; [|apply SS_idle].
     destruct (allocate (h_out st) (h_sel st)) as [t|er] eqn:Hal; cbn [fst snd].
     + destruct wok; cbn [fst snd]; [apply SS_req_ok | apply SS_req_wfail]; assumption.
@@ -91,6 +93,8 @@ Proof.
     + apply SS_resp; assumption.
     + rewrite src_unknown_tag_dropped. apply SS_idle.
   - cbn [fst snd]. apply (SS_flags st EReadFatal); cbn; auto; discriminate.
+  - destruct (reader_retry_stops_when_done && (h_ctx st || h_closed st)); cbn [fst snd];
+      apply (SS_flags st EReadRetry); cbn; auto; discriminate.
   - cbn [fst snd]. apply (SS_flags st ECtxDone); cbn; auto; discriminate.
   - fold (exit_enabled st). destruct (exit_enabled st) eqn:He; cbn [fst snd].
     + pose proof (SS_flags st EExit
